@@ -1,6 +1,7 @@
 /- driver family `disp` (C19): displayed path indices and the local model generators' tables -/
 import MagpyVerif.Model.Display
 import MagpyVerif.Model.DisplayTrig
+import MagpyVerif.Model.DisplayIdx
 import Driver.KernFam
 import Driver.Parse
 
@@ -71,6 +72,132 @@ def runTrig (cmd : String) : P String := do
       let f (l : List Float) := " ".intercalate (l.map fun v => toString v.toBits)
       pure s!"ok {f x} ; {f y} ; {f z}"
   | t => throw s!"unknown disp command {t}"
+
+/-! rows of Model/DisplayIdx.lean: index arrays of Ellipsoid / CylinderSegment / Arrow, trace merging, path trace, auto unit -/
+
+/-- `int(log10(x))` of a positive finite double (C `log10`, truncation towards zero) -/
+instance : MagpyVerif.Display.TruncLog10 Float where
+  truncLog10 x := (Float.log10 x).toInt64.toInt
+
+def hexOf (s : String) : String :=
+  let h (b : UInt8) : String :=
+    let d (k : Nat) : Char := if k < 10 then Char.ofNat (48 + k) else Char.ofNat (87 + k)
+    String.ofList [d (b.toNat / 16), d (b.toNat % 16)]
+  if s.isEmpty then "-" else String.join (s.toUTF8.toList.map h)
+
+def optList {α} (p : P α) : P (Option (List α)) := do
+  if (← nat) = 0 then pure none else do pure (some (← many (← nat) p))
+
+def restKV : P (List (String × Int)) := do many (← nat) (do pure (← tok, ← int))
+
+def meshTrace : P (MeshTrace Int) := do
+  let nv ← nat
+  let x ← many nv int
+  let ny ← nat
+  let y ← many ny int
+  let nz ← nat
+  let z ← many nz int
+  let nf ← nat
+  let i ← many nf nat
+  let j ← many nf nat
+  let k ← many nf nat
+  let it ← optList int
+  let fc ← optList int
+  let rest ← restKV
+  pure { x := x, y := y, z := z, i := i, j := j, k := k, intensity := it, facecolor := fc, rest := rest }
+
+def fmtOptList (l : Option (List Int)) : String :=
+  match l with
+  | none => "-"
+  | some l => s!"[{ints l}]"
+
+def fmtRest (r : List (String × Int)) : String := " ".intercalate (r.map fun (k, v) => s!"{k}={v}")
+
+def optInt : P (Option Int) := do
+  match (← tok) with
+  | "N" => pure none
+  | t => match t.toInt? with
+    | some i => pure (some i)
+    | none => throw s!"not an int or N: {t}"
+
+/-- mode token: `_` = key absent / None, `E` = empty string, else the string itself -/
+def modeTok : P (Option String) := do
+  match (← tok) with
+  | "_" => pure none
+  | "E" => pure (some "")
+  | t => pure (some t)
+
+def fmtMode : Option String → String
+  | none => "_"
+  | some "" => "E"
+  | some s => s
+
+def scatTrace : P (ScatterTrace Int) := do
+  let x ← many (← nat) optInt
+  let y ← many (← nat) optInt
+  let z ← many (← nat) optInt
+  let mode ← modeTok
+  let rest ← restKV
+  pure { x := x, y := y, z := z, mode := mode, rest := rest }
+
+def fmtOpts (l : List (Option Int)) : String :=
+  " ".intercalate (l.map fun | none => "N" | some v => toString v)
+
+def mErrName : MErr → String
+  | .indexError => "IndexError"
+  | .keyError => "KeyError"
+
+def pivot : P MagpyVerif.DisplayTrig.Pivot := do
+  match (← tok) with
+  | "tail" => pure .tail
+  | "tip" => pure .tip
+  | "middle" => pure .middle
+  | t => throw s!"bad pivot {t}"
+
+open KernFam in
+def runIdx (cmd : String) : P (Option String) := do
+  match cmd with
+  | "ellidx" => do pure (some (ijk (ellipsoidIJK (← nat))))
+  | "segidx" => do
+      let vert ← nat; let p1 ← flt; let p2 ← flt
+      let N := MagpyVerif.DisplayTrig.segN vert p1 p2
+      let (i, j, k) := segIJKOf vert p1 p2
+      pure (some s!"ok {N} {if segFull p1 p2 then 1 else 0} ; {nats i} ; {nats j} ; {nats k}")
+  | "arrow" => do pure (some (ijk (arrowIJK (← nat))))
+  | "arrowv" => do
+      let N ← nat; let d ← flt; let h ← flt; let p ← pivot
+      pure (some (verts (arrowVerts N d h p)))
+  | "mmesh" => do
+      let ts ← many (← nat) meshTrace
+      match mergeMesh3d ts with
+      | .error e => pure (some ("err " ++ mErrName e))
+      | .ok m => pure (some s!"ok {ints m.x} ; {ints m.y} ; {ints m.z} ; {nats m.i} ; {nats m.j} ; {nats m.k} ; {fmtOptList m.intensity} ; {fmtOptList m.facecolor} ; {fmtRest m.rest}")
+  | "mscat" => do
+      let ts ← many (← nat) scatTrace
+      match mergeScatter3d ts with
+      | .error e => pure (some ("err " ++ mErrName e))
+      | .ok m =>
+        let pieces := " | ".intercalate ((splitNone m.x).map ints)
+        pure (some s!"ok {fmtOpts m.x} ; {fmtOpts m.y} ; {fmtOpts m.z} ; {fmtMode m.mode} ; {fmtRest m.rest} ; {pieces}")
+  | "path" => do
+      let m ← nat
+      let ps ← many m KernFam.v3
+      let f ← flt
+      pure (some (verts (pathTrace ps f)))
+  | "autounit" => do
+      let x ← flt
+      let (u, p, e) := autoUnit x
+      pure (some s!"ok {hexOf u} {p} {e} {autoDigits x}")
+  | "ranges" => do
+      let m ← nat
+      let ps ← many m KernFam.v3
+      let zo ← flt
+      let r := sceneRange ps zo
+      let cells := " ".intercalate (r.map fun (a, b) => s!"{a.toBits} {b.toBits}")
+      let rm := rmaxOf r
+      let (u, p, e) := autoUnit rm
+      pure (some s!"ok {cells} ; {rm.toBits} ; {hexOf u} {p} {e}")
+  | _ => pure none
 
 /-! `place`: place_and_orient_model3d on dyadic data; every number travels as an integer multiple of 1/64 -/
 def q64 : P Float := do pure (Float.ofInt (← int) / 64)
@@ -167,7 +294,10 @@ def run : P String := do
       pure s!"ok {ints (pts.map (·.1))} ; {ints (pts.map (·.2.1))} ; {ints (pts.map (·.2.2))} ; {nats (t.map (·.1))} ; {nats (t.map (·.2.1))} ; {nats (t.map (·.2.2))}"
   | "prism" => do pure (ijk (prismIJK (← nat)))
   | "pyramid" => do pure (ijk (pyramidIJK (← nat)))
-  | t => runTrig t
+  | t => do
+      match (← runIdx t) with
+      | some r => pure r
+      | none => runTrig t
 
 def step (line : String) : String :=
   match runLine run line with
